@@ -252,8 +252,9 @@ fn check(validator: &TransactionValidator, bytes: &[u8], family: &str, how: &dyn
             return None;
         }
         Ref::Undecided(why) => {
+            // no verdict from the reference, but the acceptance itself is a fact other oracles (signature reuse) use
             l.info(&format!("{family}:accepted:undecided:{why}"));
-            return None;
+            return Some(SeedFacts { signed_hash: hashes.signed, sets: got });
         }
     }
     if let Some(seed) = seed {
